@@ -90,9 +90,11 @@ ENTRIES += [
 ]
 
 ENTRIES += [
-    B('regress-symlink-unhandled', "            try:\n                os.symlink(link_target, symlink_path)\n            except OSError as error:\n                # The name comes from the listing: listed twice, already\n                # there from an earlier run, or naming a missing directory.\n                _logger.warning(\n                    _('Could not create symbolic link {symlink_path}: {error}'),\n                    symlink_path=symlink_path, error=error\n                )\n                return\n",
+    B('regress-symlink-unhandled', "            try:\n                os.symlink(link_target, symlink_path)\n            except (OSError, ValueError) as error:\n                # The name comes from the listing: listed twice, already\n                # there from an earlier run, naming a missing directory, or\n                # containing a NUL.\n                _logger.warning(\n                    _('Could not create symbolic link {symlink_path}: {error}'),\n                    symlink_path=symlink_path, error=error\n                )\n                return\n",
       "            os.symlink(link_target, symlink_path)\n", 'C09-D1', 'wpull/processor/ftp.py'),
-    B('symlink-handler-too-narrow', "            except OSError as error:\n                # The name comes from the listing", "            except FileExistsError as error:\n                # The name comes from the listing", 'C09-D1', 'wpull/processor/ftp.py'),
+    B('symlink-handler-too-narrow', "            except (OSError, ValueError) as error:\n                # The name comes from the listing", "            except FileExistsError as error:\n                # The name comes from the listing", 'C09-D1', 'wpull/processor/ftp.py'),
+    B('regress-symlink-nul', "            except (OSError, ValueError) as error:\n                # The name comes from the listing", "            except OSError as error:\n                # The name comes from the listing", 'C09-D1', 'wpull/processor/ftp.py'),
+    B('regress-continue-refusal-is-ioerror', "        raise ServerError(\n            _('Server not able to continue", "        raise IOError(\n            _('Server not able to continue", 'C09-D1', 'wpull/writer.py'),
 ]
 
 FC = 'wpull/protocol/ftp/client.py'
